@@ -92,6 +92,10 @@ func (s *Sim) RunStep(i int, st Step) (res StepResult, infra error) {
 		}
 		bs := s.Supplement(ctx.V1)
 		b := s.Seal(ctx.V1, ctx.V2)
+		if st.BDefect != "" {
+			lastTag = "block!" + st.BDefect
+			b = s.spoilPayout(b, st.BDefect)
+		}
 		res.Block, res.Supp = &b, bs
 		err, pan := s.Validate(b, bs)
 		if pan != nil {
@@ -105,6 +109,11 @@ func (s *Sim) RunStep(i int, st Step) (res StepResult, infra error) {
 			res.Mismatches = append(res.Mismatches, Mismatch{"rejected-valid", i, lastTag, err.Error()})
 		case st.Verdict == "reject" && err == nil:
 			res.Mismatches = append(res.Mismatches, Mismatch{"accepted-invalid", i, lastTag, "block with defective transaction accepted"})
+		case st.Verdict == "reject" && st.BDefect != "":
+			// attribution: the same block with the correct miner payout must be valid
+			if cerr, cpan := s.Validate(s.Seal(ctx.V1, ctx.V2), bs); cerr != nil || cpan != nil {
+				res.Mismatches = append(res.Mismatches, Mismatch{"control-rejected", i, lastTag, fmt.Sprint(cerr, cpan)})
+			}
 		case st.Verdict == "reject":
 			// attribution: the same block without the defective (last) transaction must be valid
 			ctl := s.NewBlockCtx()
@@ -146,4 +155,26 @@ func (s *Sim) RunStep(i int, st Step) (res StepResult, infra error) {
 // ParamsFromConsts builds Params from the constants used in a Ledger configuration.
 func ParamsFromConsts(matDelay, allowH, requireH, ephH, foundH, reward uint64, gsc, gsf []AbsOut) Params {
 	return Params{MatDelay: matDelay, AllowH: allowH, RequireH: requireH, EphH: ephH, FoundH: foundH, Reward: reward, GenSC: gsc, GenSF: gsf}
+}
+
+
+// spoilPayout applies a block-level payout defect and seals the block again.
+func (s *Sim) spoilPayout(b types.Block, kind string) types.Block {
+	b.MinerPayouts = append([]types.SiacoinOutput(nil), b.MinerPayouts...)
+	one := types.NewCurrency64(1)
+	switch kind {
+	case "payout+1":
+		b.MinerPayouts[0].Value = b.MinerPayouts[0].Value.Add(one)
+	case "payout-1":
+		b.MinerPayouts[0].Value = b.MinerPayouts[0].Value.Sub(one)
+	case "payout-split":
+		v := b.MinerPayouts[0].Value
+		b.MinerPayouts[0].Value = v.Sub(one)
+		b.MinerPayouts = append(b.MinerPayouts, types.SiacoinOutput{Value: one, Address: b.MinerPayouts[0].Address})
+	}
+	b.Nonce = 0
+	for b.ID().CmpWork(s.CS.PoWTarget()) < 0 {
+		b.Nonce += s.CS.NonceFactor()
+	}
+	return b
 }
